@@ -251,6 +251,7 @@ pub fn score(query: &TextRef, hit: &mut Hit)
         let h = *final(hit); let ms = h.rmatches@; let n = ms.len() as int;
         &&& h.title == old(hit).title && h.rating == old(hit).rating && h.id == old(hit).id
         &&& matches_for_text(ms, &h.title) && matches_ok(ms) && matches_for_text(h.qmatches@, query) && matches_ok(h.qmatches@)
+        &&& (ms.len() >= 1 ==> h.qmatches@.len() >= 1)
         // C03 / C13 (TM-some): a title word that the first query word is a prefix of (or equal to) gives the hit a match
         &&& tm_some(&h.title, query, (h.rmatches, h.qmatches)) // [C03 C13]
         // C13 (TM-first / TM-fin): ... the first query word itself is matched; unfinished matches only with an unfinished query word
